@@ -87,6 +87,10 @@ class Engine(object):
         self.t0 = time.time()
         self.on_path_end = None
         self.nvars = 0
+        # optional re-decision of sampled discharged obligations by other solvers (thorough tier)
+        self.second_every = 0
+        self.second = {'checked': 0, 'agree': 0, 'disagree': 0, 'undecided': 0, 'solvers': []}
+        self._second_n = 0
 
     # ------------------------------------------------------------- exploration
     def explore(self, fn):
@@ -241,6 +245,11 @@ class Engine(object):
         if node.kind is None:
             mv = bool(self.ev(t))
             other = self._query(tm.not_(t) if mv else t)
+            if other is None and self.second_every:
+                # a pruned side: a wrong "infeasible" would silently drop paths
+                self._second_n += 1
+                if self._second_n % self.second_every == 0:
+                    self._redecide(tm.not_(t) if mv else t)
             node.kind = 'br'
             node.term = t
             node.kids = {mv: Node(self.model), (not mv): (Node(other) if other is not None else None)}
@@ -426,11 +435,65 @@ class Engine(object):
             self.discharged += 1
             st[1] += 1
             self.facts[t] = True
+            if self.second_every:
+                self._second_n += 1
+                if self._second_n % self.second_every == 0:
+                    self._redecide(tm.not_(t))
             return True
         self._violate(label, detail, m, sig)
         # continue on the part of the path where the obligation holds
         self.assume(t)
         return False
+
+    def _redecide(self, t):
+        """dump  path-condition AND t  (an obligation's negation, or the pruned side of a branch) as SMT-LIB2 and ask
+        the cvc5 and z3 4.8 binaries: neither may say sat"""
+        import subprocess
+        import tempfile
+        import shutil
+        vs = {}
+        seen = set()
+        for c in self.pc + [t]:
+            tm.variables(c, vs, seen)
+        lines = ['(set-logic ALL)']
+        for n, v in sorted(vs.items()):
+            lines.append('(declare-const |%s| %s)' % (n, {'I': 'Int', 'R': 'Real', 'B': 'Bool'}[v.s]))
+        for c in self.pc:
+            lines.append('(assert %s)' % tm.to_smt2(c))
+        lines.append('(assert %s)' % tm.to_smt2(t))
+        lines.append('(check-sat)')
+        with tempfile.NamedTemporaryFile('w', suffix='.smt2', delete=False) as f:
+            f.write('\n'.join(lines) + '\n')
+            path = f.name
+        self.second['checked'] += 1
+        verdicts = []
+        for exe, args in (('cvc5', ['--tlimit=10000']), ('/usr/bin/z3', ['-T:10'])):
+            if not shutil.which(exe):
+                continue
+            if exe not in self.second['solvers']:
+                self.second['solvers'].append(exe)
+            try:
+                out = subprocess.run([exe] + args + [path], capture_output=True, text=True, timeout=15).stdout
+            except Exception:
+                out = 'timeout'
+            if '(error' in out:
+                verdicts.append('error')
+            elif out.strip().startswith('unsat'):
+                verdicts.append('unsat')
+            elif out.strip().startswith('sat'):
+                verdicts.append('sat')
+            else:
+                verdicts.append('unknown')
+        import os as _os
+        if 'sat' in verdicts:
+            self.second['disagree'] += 1
+            self.second.setdefault('files', []).append(path)
+        else:
+            _os.unlink(path)
+            if verdicts and all(v == 'unsat' for v in verdicts):
+                self.second['agree'] += 1
+            else:
+                self.second['undecided'] += 1
 
     def feasible(self, cond):
         """can cond hold on this path? (no fork)"""
